@@ -185,6 +185,12 @@ def kani_part(prop, tier, seed, tmp, only=None):
         if r['status'] not in ('success', 'failed') or (r['status'] == 'failed' and r['checks'] == 0 and not r['failures']):
             undec.append('%s: no verification result (%s: timeout, memory limit, crash or compile error)' % (nm, r['status']))
             continue
+        if e.get('control'):
+            # positive control: this harness MUST fail with the expected tag (e.g. boxed() must trip the allocator stub)
+            if not any(e.get('expect_tag') in kanileg.classify_failure(e, f['desc'])[0] for f in r['failures']):
+                undec.append('%s: positive control did not fail - the stub/contract it guards is not effective' % nm)
+            passed += r['checks'] - r['failed']
+            continue
         for f in r['failures']:
             tags, kind = kanileg.classify_failure(e, f['desc'])
             if kind == 'unwind':
@@ -195,7 +201,10 @@ def kani_part(prop, tier, seed, tmp, only=None):
                 vs.append(dict(property=prop, leg='kani', function=e['fn'], obligation=f['desc'], n=n, harness=nm,
                                detail='%s at N=%d: %s (%s)' % (e['fn'], n, f['desc'], f['loc']),
                                verifier_output=r['text']))
-        if r['status'] == 'success' and r['cover_ok'] is False:
+        if e.get('expect_panic'):
+            if not r['failures']:
+                undec.append('%s: must-panic harness reached no panic at all (vacuous)' % nm)
+        elif r['status'] == 'success' and r['cover_ok'] is False:
             undec.append('%s: end of harness unreachable although no check failed (vacuous)' % nm)
         passed += r['checks'] - r['failed']
     ev.update(harnesses=rows, checks=checks, checks_passed=passed, capacities=sorted(ns), undecided=undec)
@@ -310,6 +319,31 @@ def do_replay(path):
 
 # ---------------------------------------------------------------------------------------------
 
+def build_obligations(prop, tmp):
+    """C17: the crate must build without std and with alloc only (rustc compile obligations)"""
+    if prop != 'C17':
+        return [], []
+    vs, rows = [], []
+    scratch = os.path.join(tmp, 'build')
+    os.makedirs(scratch, exist_ok=True)
+    shutil.copytree(os.path.join(REPO, 'src'), os.path.join(scratch, 'src'))
+    for f in ('Cargo.toml', 'Cargo.lock'):
+        shutil.copy(os.path.join(REPO, f), os.path.join(scratch, f))
+    if os.path.isdir(os.path.join(REPO, 'benches')):
+        shutil.copytree(os.path.join(REPO, 'benches'), os.path.join(scratch, 'benches'))
+    env = dict(os.environ)
+    env['CARGO_NET_OFFLINE'] = 'true'
+    env['CARGO_TARGET_DIR'] = os.path.join(scratch, 'target')
+    for feats in (['--no-default-features'], ['--no-default-features', '--features', 'alloc']):
+        cmd = ['cargo', 'check', '--offline', '--lib'] + feats
+        p = subprocess.run(cmd, cwd=scratch, env=env, capture_output=True, text=True, timeout=600)
+        rows.append(dict(cmd=' '.join(cmd), rc=p.returncode))
+        if p.returncode != 0:
+            vs.append(dict(property=prop, leg='rustc', function='crate build', obligation='cargo check ' + ' '.join(feats), n='-',
+                           detail='the crate does not build with ' + ' '.join(feats), verifier_output=p.stderr[-3000:]))
+    return vs, rows
+
+
 def check(prop, tier, seed, legs=('verus', 'kani'), keep=False, only=None):
     t0 = time.time()
     spec = PROPS[prop]
@@ -324,6 +358,10 @@ def check(prop, tier, seed, legs=('verus', 'kani'), keep=False, only=None):
             violations += vp['violations']
         if kp:
             violations += kp['violations']
+        bvs, brows = build_obligations(prop, tmp)
+        violations += bvs
+        if kp and brows:
+            kp['evidence']['build_obligations'] = brows
         # dedupe
         seen = set()
         uniq = []
@@ -343,7 +381,9 @@ def check(prop, tier, seed, legs=('verus', 'kani'), keep=False, only=None):
         for v, _ in new_v:
             hit = None
             cands = []
-            if v['leg'] == 'kani':
+            if v['leg'] == 'rustc':
+                cands, scratch, feats = [], '', ''
+            elif v['leg'] == 'kani':
                 cands = [(v['harness'], v['obligation'][:60])]
                 scratch = kp['scratch']
                 feats = next((e.get('features', '') for e in HARNESSES if e['fn'] == v['function']), '')
